@@ -226,6 +226,10 @@ struct MockUdp {
     inq: Mutex<VecDeque<(Vec<u8>, SocketAddr)>>,
     notify: tokio::sync::Notify,
     sent: Mutex<Vec<(Vec<u8>, SocketAddr)>>,
+    /// readiness events with nothing behind them (the trait's documentation expects them: a socket shared by several
+    /// servers, a datagram discarded after readiness was signalled): `readable()` returns, the read gives WouldBlock
+    spurious: std::sync::atomic::AtomicU64,
+    spurious_seen: std::sync::atomic::AtomicU64,
 }
 
 impl AsyncDgramSock for MockUdp {
@@ -236,7 +240,7 @@ impl AsyncDgramSock for MockUdp {
     fn readable(&self) -> Pin<Box<dyn Future<Output = io::Result<()>> + '_ + Send>> {
         Box::pin(async move {
             loop {
-                if !self.inq.lock().unwrap().is_empty() {
+                if !self.inq.lock().unwrap().is_empty() || self.spurious.load(std::sync::atomic::Ordering::SeqCst) > 0 {
                     return Ok(());
                 }
                 self.notify.notified().await;
@@ -244,6 +248,11 @@ impl AsyncDgramSock for MockUdp {
         })
     }
     fn try_recv_buf_from(&self, buf: &mut ReadBuf<'_>) -> io::Result<(usize, SocketAddr)> {
+        if self.spurious.load(std::sync::atomic::Ordering::SeqCst) > 0 {
+            self.spurious.fetch_sub(1, std::sync::atomic::Ordering::SeqCst);
+            self.spurious_seen.fetch_add(1, std::sync::atomic::Ordering::SeqCst);
+            return Err(io::ErrorKind::WouldBlock.into());
+        }
         match self.inq.lock().unwrap().pop_front() {
             Some((m, a)) => {
                 let n = m.len().min(buf.remaining());
@@ -311,7 +320,7 @@ fn udp_case(c: &mut Ctx, fam: &str, idx: u64) {
     let probe_addr: SocketAddr = "198.51.100.7:5353".parse().unwrap();
     reqs.push((mk_req(rng.u16(), "s1", 9999, None), probe_addr));
     let ex = json!({"configured_max_response_size": configured, "cookies_middleware": cookies_on, "requests": reqs.iter().map(|(r, a)| json!({"what": r.what, "addr": a.to_string(), "wire": hex(&r.wire)})).collect::<Vec<_>>()});
-    let sock = Arc::new(MockUdp { inq: Mutex::new(VecDeque::new()), notify: tokio::sync::Notify::new(), sent: Mutex::new(vec![]) });
+    let sock = Arc::new(MockUdp { inq: Mutex::new(VecDeque::new()), notify: tokio::sync::Notify::new(), sent: Mutex::new(vec![]), spurious: std::sync::atomic::AtomicU64::new(0), spurious_seen: std::sync::atomic::AtomicU64::new(0) });
     let rt = tokio::runtime::Builder::new_current_thread().enable_all().start_paused(true).build().unwrap();
     let sock2 = sock.clone();
     let reqs2 = reqs.clone();
@@ -325,6 +334,12 @@ fn udp_case(c: &mut Ctx, fam: &str, idx: u64) {
             let s2 = srv.clone();
             let h = tokio::spawn(async move { s2.run().await });
             for (r, a) in reqs2.iter() {
+                if rng2.chance(1, 6) {
+                    // a readiness event with nothing to read
+                    sock2.spurious.fetch_add(1, std::sync::atomic::Ordering::SeqCst);
+                    sock2.notify.notify_one();
+                    tokio::time::sleep(Duration::from_millis(1)).await;
+                }
                 sock2.inq.lock().unwrap().push_back((r.wire.clone(), *a));
                 sock2.notify.notify_one();
                 if rng2.chance(1, 3) {
@@ -448,6 +463,7 @@ fn udp_case(c: &mut Ctx, fam: &str, idx: u64) {
         c.eval(&("udp", kind, r.edns.map(|s| s.min(5000) / 100), configured, tc, (m.len() / 128).min(40)));
     }
     c.count("udp_cases", 1);
+    c.count("udp_readiness_without_datagram", sock.spurious_seen.load(std::sync::atomic::Ordering::SeqCst));
 }
 
 /// `DgramServer` wants to own its socket; the harness keeps a handle on it.
@@ -1015,7 +1031,7 @@ fn udp_bare_case(c: &mut Ctx, fam: &str, idx: u64) {
         reqs.push((mk_req(rng.u16(), &label, k, edns), addr));
     }
     let ex = json!({"stack": "MandatoryMiddlewareSvc(service that always attaches OPT)", "configured_max_response_size": configured, "requests": reqs.iter().map(|(r, a)| json!({"what": r.what, "addr": a.to_string(), "wire": hex(&r.wire)})).collect::<Vec<_>>()});
-    let sock = Arc::new(MockUdp { inq: Mutex::new(VecDeque::new()), notify: tokio::sync::Notify::new(), sent: Mutex::new(vec![]) });
+    let sock = Arc::new(MockUdp { inq: Mutex::new(VecDeque::new()), notify: tokio::sync::Notify::new(), sent: Mutex::new(vec![]), spurious: std::sync::atomic::AtomicU64::new(0), spurious_seen: std::sync::atomic::AtomicU64::new(0) });
     let rt = tokio::runtime::Builder::new_current_thread().enable_all().start_paused(true).build().unwrap();
     let sock2 = sock.clone();
     let reqs2 = reqs.clone();
@@ -1131,7 +1147,7 @@ pub fn run(c: &mut Ctx) {
         stream_case(c, fam, idx);
     }
     if !c.replaying() {
-        for k in ["udp_cases", "udp_complete_answers", "udp_truncated_answers", "udp_hostile_requests", "udp_service_failures_answered", "stream_cases", "stream_connections_checked", "stream_multi_responses", "stream_aborted_connections", "udp_bare_no_edns_truncated", "udp_bare_no_edns_complete", "stream_slow_readers_served", "churn_cases", "churn_connections:failed-handshake", "churn_connections:aborted", "churn_connections:idled-out"] {
+        for k in ["udp_cases", "udp_complete_answers", "udp_truncated_answers", "udp_hostile_requests", "udp_service_failures_answered", "stream_cases", "stream_connections_checked", "stream_multi_responses", "stream_aborted_connections", "udp_bare_no_edns_truncated", "udp_bare_no_edns_complete", "stream_slow_readers_served", "udp_readiness_without_datagram", "churn_cases", "churn_connections:failed-handshake", "churn_connections:aborted", "churn_connections:idled-out"] {
             c.floor(k, 3);
         }
     }
